@@ -18,6 +18,10 @@ DEFS = ['-DMUSCLE_ENABLE_ZLIB_ENCODING', '-DMUSCLE_NO_EXCEPTIONS', '-D' + GUARD]
 CXXFLAGS = ['-std=gnu++11', '-O1', '-g', '-w', '-fsanitize=address,undefined'] + DEFS
 ALLOWED_AXIOMS = {'propext', 'Classical.choice', 'Quot.sound'}
 NCPU = os.cpu_count() or 4
+# compilers, cmake and python put their temporaries here, not in /tmp: a check must not depend on (or be disturbed through) /tmp
+TMP = os.path.join(BUILD, 'tmp')
+os.makedirs(TMP, exist_ok=True)
+os.environ['TMPDIR'] = TMP
 
 RUN_ENV = dict(os.environ)
 RUN_ENV['ASAN_OPTIONS'] = 'detect_leaks=0:allocator_may_return_null=1:abort_on_error=0:exitcode=99:handle_abort=1'
